@@ -33,7 +33,7 @@ PROPS = {
     "C05": dict(fams=[("num", 6000, "fast"), ("numshort", 1, "fast"), ("num", 3000, "nofast"), ("numshort", 1, "nofast")], mult=20),
     "C06": dict(fams=[("text", 1200, "fast"), ("faults", 150, "fast"), ("malformed", 1200, "fast"), ("escapes", 1, "fast"), ("num", 1500, "fast"), ("serde", 200, "fast")], mult=10),
     "C07": dict(fams=[("print", 1500, "fast"), ("sink", 3000, "fast"), ("printall", 1, "fast"), ("serde", 200, "fast")], mult=10),
-    "C08": dict(fams=[("tok", 1, "fast"), ("numshort", 1, "fast"), ("opts", 1, "fast")], mult=2),
+    "C08": dict(fams=[("tok", 1, "fast"), ("numshort", 1, "fast"), ("opts", 1, "fast"), ("sens", 1500, "fast")], mult=2),
     "C09": dict(fams=[], mult=10, special="macro"),
     "C10": dict(fams=[("text", 1500, "fast"), ("malformed", 1500, "fast"), ("deep", 1, "fast"), ("tok", 1, "fast")], mult=10),
     "C11": dict(fams=[("text", 2000, "fast"), ("malformed", 500, "fast"), ("faults", 100, "fast")], mult=10),
